@@ -80,6 +80,11 @@ func relayFor(class string, rng *rand.Rand) string {
 	case "plain":
 		return "state-" + GenXMLString(rng, 0, 20)
 	case "escape":
+		// characters that mean something in a query string; on a third of the draws every "%" starts a VALID escape
+		// (a relay state is opaque: nobody may decode it on the way)
+		if rng.Intn(3) == 0 {
+			return []string{"next=%2Fhome%3Ftab%3D2", "100%25+done", "%3Cscript%3Ealert(1)%3C%2Fscript%3E", "%E2%9C%93%20ok%0D%0A"}[rng.Intn(4)] + GenXMLString(rng, 0, 4)
+		}
 		return "a b+c&d=e%f/?#" + GenXMLString(rng, 0, 6) + "%20+&=;"
 	case "html":
 		return `"><img src=x onerror=alert(1)><x y="` + GenXMLString(rng, 1, 10) + `' onmouseover='x`
